@@ -19,6 +19,7 @@ GRIDS = {
     'n3': [400, 430, 520],
     'n5': [400, 410, 450, 520, 700],
     'n6': [350, 400, 480, 500, 640, 900],
+    'pw7': [400, 410, 420, 470, 520, 570, 620],      # piecewise uniform: 10 nm steps, then 50 nm steps (w9-C15-1)
 }
 
 
@@ -206,10 +207,14 @@ def chk_bin(case, acc, seed):
 def chk_crop(case, acc, seed):
     """crop keeps exactly the samples inside the closed range, whatever unit (and so magnitude) the wavelengths have"""
     unit, gname = case['unit'], case['grid']
-    g = np.array([400 + 5 * k for k in range(9)], float) if gname == 'coarse' else np.array([500 + 0.002 * k for k in range(9)], float)
+    g = np.array([400 + 5 * k for k in range(9)], float) if gname in ('coarse', 'int') else np.array([500 + 0.002 * k for k in range(9)], float)
     w = g * UF[unit]
+    if gname == 'int':
+        w = np.array([400 + 5 * k for k in range(9)], dtype=np.int64)      # integer-typed wavelengths, fractional limits (w9-C15-2)
     vals = 1.0 + np.arange(len(w))
     pts = sorted(set(w.tolist()) | set(((w[:-1] + w[1:]) / 2).tolist()) | {w[0] - (w[1] - w[0]) / 2, w[-1] + (w[1] - w[0]) / 2})
+    if gname == 'int':
+        pts = sorted(set(pts) | {float(x) + 0.5 for x in w} | {float(x) - 0.25 for x in w})      # limits whose floor / ceiling is a sample
     from lentil.radiometry import Spectrum
     for i, lo in enumerate(pts):
         for hi in pts[i:]:
@@ -589,6 +594,7 @@ def t_static(arg, acc):
         for unit in UF:
             for gname in ('coarse', 'fine'):
                 chk_crop({'kind': 'crop', 'unit': unit, 'grid': gname}, acc, seed)
+        chk_crop({'kind': 'crop', 'unit': 'nm', 'grid': 'int'}, acc, seed)
 
 
 def run(tier, seed, acc, procs=None):
